@@ -107,8 +107,23 @@ let rec parse_tree (tok : string array) (pos : int ref) : tnode =
 let rec tree_depth (TN (_, _, _, cs)) =
   1 + List.fold_left (fun m -> function None -> m | Some c -> max m (tree_depth c)) 0 cs
 
+(* p<u><b>[<e>]: the codec harness has no <e> *)
 let probe_of s =
-  if String.length s = 3 && s.[0] = 'p' then (s.[1] = '1', s.[2] = '1') else fail "C07: bad probe %s" s
+  if (String.length s = 3 || String.length s = 4) && s.[0] = 'p' then (s.[1] = '1', s.[2] = '1')
+  else fail "C07: bad probe %s" s
+let efix_of s = String.length s = 4 && s.[3] = '1'
+
+(* "<result> R <reenc>" -> (result, Some reenc) *)
+let split_reenc (s : string) : string * string option =
+  let n = String.length s in
+  let rec find i = if i + 3 > n then None else if String.sub s i 3 = " R " then Some i else find (i + 1) in
+  match find 0 with
+  | Some i -> (String.sub s 0 i, Some (String.sub s (i + 3) (n - i - 3)))
+  | None -> (s, None)
+
+(* Encode applied to the decoded node, as the harness does it *)
+let reenc_str (efix : bool) (d : dnode) : string =
+  if dnode_big d then "skip" else hex_of_bytes (dencode hash_memo efix d)
 
 let first_tok s = match String.index_opt s ' ' with Some i -> String.sub s 0 i | None -> s
 let rest_after s = match String.index_opt s ' ' with
@@ -132,19 +147,25 @@ let check inp obs =
     { prop_ok = false; model_eq = false; nontrivial = true; finding = "-"; tags = "whole-case-" ^ obs;
       detail = "the harness call did not return: " ^ obs } else
   let st = probe_of (first_tok obs) in
+  let efix = efix_of (first_tok obs) in
   let obs = rest_after obs in
   let ptag = "scale-" ^ (if fst st then "strictU" else "lenientU") ^ (if snd st then "-strictB" else "-lenientB") in
   match split_ws inp with
   | ["dec"; hx] | ["cdec"; hx] as f ->
     let bs = bytes_of_hex hx in
     let is_c = List.hd f = "cdec" in
-    let m = if is_c then cres_str (codec_decode st bs) else dres_str (node_decode st bs) in
+    let m = if is_c then cres_str (codec_decode st bs)
+      else (match node_decode st bs with
+          | Ok (Some d) as r -> dres_str r ^ " R " ^ reenc_str efix d
+          | r -> dres_str r) in
     let pinned = if is_c then cres_str (codec_decode_pinned st bs) else dres_str (node_decode_pinned st bs) in
     let prop = obs <> "panic" && obs <> "hang" in
     let tags = String.concat "," (List.filter (fun x -> x <> "") [
       (if is_c then "cdec" else "dec"); (if is_c then "c-" else "") ^ result_tag m; ptag;
       (if pinned = "panic" then "pinned-panics" else "");
       (if contains m "+" then "zero-filled-large" else "");
+      (if contains m " R " then "reencoded" else "");
+      (if contains m " R skip" then "reencode-skipped-big" else "");
       (if (not is_c) && contains m " L " && first_tok m = "B" then "inlined-child" else "");
       (let l = List.length bs in if l <= 2 then "len<=2" else if l < 32 then "len<32" else "len>=32") ]) in
     { prop_ok = prop; model_eq = (m = obs); nontrivial = true; finding = "-"; tags;
@@ -158,9 +179,14 @@ let check inp obs =
     let enc = encode hash_memo t in
     let expected = if is_c then cnode_str (cview hash_memo t) else dnode_str (view hash_memo t) in
     let m_dec = if is_c then cres_str (codec_decode st enc) else dres_str (node_decode st enc) in
-    let m = hex_of_bytes enc ^ " " ^ m_dec in
-    let o_dec = rest_after obs in
-    let prop = (o_dec = expected) in
+    let m_re = if is_c then "" else (match node_decode st enc with
+        | Ok (Some d) -> " R " ^ reenc_str efix d
+        | _ -> "") in
+    let m = hex_of_bytes enc ^ " " ^ m_dec ^ m_re in
+    let (o_dec, o_re) = split_reenc (rest_after obs) in
+    (* the decoded node is the decoded view of the tree, and — pkg/trie/node — encoding the decoded
+       node again gives the bytes it was decoded from (C07_reencode) *)
+    let prop = (o_dec = expected) && (is_c || o_re = Some (first_tok obs)) in
     let TN (pk, sv, mbh, cs) = t in
     let tags = String.concat "," (List.filter (fun x -> x <> "") [
       (if is_c then "cenc" else "enc"); ptag; (if cs = [] then "leaf" else "branch");
@@ -168,10 +194,13 @@ let check inp obs =
       (match sv with None -> "no-value" | Some v -> if mbh then "hashed-value" else
                       (let l = List.length v in if l < 64 then "val<64" else if l < 16384 then "val<16384" else "val>=16384"));
       (if contains expected " S " then "hashed-child" else "");
+      (if (not is_c) && not efix then "reencode-unrepaired" else "");
       (if (not is_c) && cs <> [] && (contains expected " L " || contains (rest_after expected) "B ") then "inlined-child" else "");
       Printf.sprintf "depth%d" (tree_depth t) ]) in
     { prop_ok = prop; model_eq = (m = obs) && (m_dec = expected); nontrivial = true; finding = "-"; tags;
-      detail = if prop && m = obs then "" else Printf.sprintf "expected=%s model=%s" expected m }
+      detail = if prop && m = obs then "" else
+          Printf.sprintf "expected=%s re-encoding=%s model=%s" expected
+            (match o_re with Some r -> if r = first_tok obs then "same" else r | None -> "-") m }
   | ["hdr"; v; l] | ["chdr"; v; l] ->
     let vi = int_of_string ("0x" ^ v) and ln = n_of_hex l in
     let var = variant_of_nat (nat_of_int vi) in
@@ -193,4 +222,92 @@ let check inp obs =
       detail = if prop && m = obs then "" else "model=" ^ m }
   | _ -> fail "C07: bad input %s" inp
 
-let () = run_driver check
+(* ---------------------------------------------------------------- vm_compute cross-check
+   Sampled cases of the node harness re-evaluated inside Coq: the observed result (parsed from the
+   trace, not taken from the extracted model) is rendered as a Gallina term and compared with what
+   the Gallina model computes under vm_compute (coq/C07/VmCheck.v has the comparison functions). *)
+exception Unrenderable
+let coq_nibs (s : string) : string = coq_bytes (bytes_of_nib s)
+let coq_zb (s : string) : string =
+  if String.length s >= 4 && String.sub s 0 4 = "big:" then raise Unrenderable;
+  match String.index_opt s '+' with
+  | Some i ->
+    let h = String.sub s 0 i and z = String.sub s (i + 1) (String.length s - i - 1) in
+    Printf.sprintf "(%s, 0x%s%%N)" (coq_bytes (bytes_of_hex h)) z
+  | None -> Printf.sprintf "(%s, 0%%N)" (coq_bytes (bytes_of_hex s))
+let coq_val (s : string) : string =
+  if String.length s < 2 then raise Unrenderable;
+  let body = String.sub s 2 (String.length s - 2) in
+  match s.[0] with
+  | 'i' -> "(DVInline " ^ coq_zb body ^ ")"
+  | 'h' -> "(DVHashed " ^ coq_bytes (bytes_of_hex body) ^ ")"
+  | _ -> raise Unrenderable
+let rec coq_dnode (tok : string array) (pos : int ref) : string =
+  let nxt () = if !pos >= Array.length tok then raise Unrenderable; let t = tok.(!pos) in incr pos; t in
+  match nxt () with
+  | "S" -> "(DStub " ^ coq_zb (nxt ()) ^ ")"
+  | "L" -> let pk = nxt () in let v = nxt () in "(DLeaf " ^ coq_nibs pk ^ " " ^ coq_val v ^ ")"
+  | "B" ->
+    let pk = nxt () in let v = nxt () in let d = nxt () in
+    let cs = List.init 16 (fun _ -> ()) |> List.map (fun () ->
+        if !pos < Array.length tok && tok.(!pos) = "_" then (incr pos; "None") else "Some " ^ coq_dnode tok pos) in
+    Printf.sprintf "(DBranch %s %s 0x%s%%N [%s])" (coq_nibs pk)
+      (if v = "none" then "None" else "(Some " ^ coq_val v ^ ")") d (String.concat "; " cs)
+  | _ -> raise Unrenderable
+let coq_dres (s : string) : string =
+  match s with
+  | "nil" -> "RNil"
+  | "err:eof" -> "(RErr 1)" | "err:variant" -> "(RErr 2)" | "err:keybig" -> "(RErr 3)" | "err:mismatch" -> "(RErr 4)"
+  | "err:storage" -> "(RErr 5)" | "err:short" -> "(RErr 6)" | "err:bitmap" -> "(RErr 7)" | "err:child" -> "(RErr 8)"
+  | _ ->
+    let tok = Array.of_list (split_ws s) in
+    let pos = ref 0 in
+    let t = coq_dnode tok pos in
+    if !pos <> Array.length tok then raise Unrenderable;
+    "(RNode " ^ t ^ ")"
+let rec coq_tnode (TN (pk, sv, mbh, cs)) : string =
+  Printf.sprintf "(TN %s %s %b [%s])" (coq_bytes pk)
+    (match sv with None -> "None" | Some v -> "(Some " ^ coq_bytes v ^ ")") mbh
+    (String.concat "; " (List.map (function None -> "None" | Some c -> "Some " ^ coq_tnode c) cs))
+let coq_bool b = if b then "true" else "false"
+
+let coq inp obs =
+  try
+    if obs = "hang" || obs = "panic" then None else
+    let probe = first_tok obs in
+    let st = probe_of probe and efix = efix_of probe in
+    let cst = Printf.sprintf "(%s, %s)" (coq_bool (fst st)) (coq_bool (snd st)) in
+    let obs = rest_after obs in
+    match split_ws inp with
+    | ["dec"; hx] ->
+      let bs = bytes_of_hex hx in
+      (* thin out the exhaustive 1- and 2-byte block *)
+      if List.length bs <= 2 && (Hashtbl.hash hx) mod 24 <> 0 then None else
+      let (res, re) = split_reenc obs in
+      let base = Printf.sprintf "dres_eqb (node_decode %s %s) %s" cst (coq_bytes bs) (coq_dres res) in
+      (match re with
+       | Some r when r <> "skip" && r <> "encerr" && r <> "encpanic" ->
+         Some (Printf.sprintf "%s && match node_decode %s %s with Ok (Some d) => bytes_eqb (dencode blake2b_256 %s d) %s | _ => false end"
+                 base cst (coq_bytes bs) (coq_bool efix) (coq_bytes (bytes_of_hex r)))
+       | _ -> Some base)
+    | "enc" :: _ when String.length inp < 20000 ->
+      let tok = Array.of_list (split_ws inp) in
+      let pos = ref 1 in
+      let t = parse_tree tok pos in
+      let enc = first_tok obs in
+      let (res, _) = split_reenc (rest_after obs) in
+      (match coq_dres res with
+       | r when String.length r > 6 && String.sub r 0 6 = "(RNode" ->
+         let node = String.sub r 7 (String.length r - 8) in
+         Some (Printf.sprintf "let t := %s in bytes_eqb (encode blake2b_256 t) %s && dres_eqb (node_decode %s %s) %s && dnode_eqb (view blake2b_256 t) %s"
+                 (coq_tnode t) (coq_bytes (bytes_of_hex enc)) cst (coq_bytes (bytes_of_hex enc)) r node)
+       | _ -> None)
+    | ["hdr"; v; l] ->
+      (match split_ws obs with
+       | [enc; _; l'] when l' = l ->
+         Some (Printf.sprintf "hdr_check %d %s %s" (int_of_string ("0x" ^ v)) (coq_n (n_of_hex l)) (coq_bytes (bytes_of_hex enc)))
+       | _ -> None)
+    | _ -> None
+  with Unrenderable -> None
+
+let () = run_driver ~coq check
